@@ -2,7 +2,7 @@
     schema regenerated from /repo. *)
 From Coq Require Import ZArith List Bool String Lia.
 From KV Require Import Base BaseProofs Wire WireProofs Cursor CursorProofs BinCursorProofs Schema SchemaSem
-  FaithfulProofs Roundtrip RoundtripProofs KmipCodec.
+  FaithfulProofs Roundtrip RoundtripProofs RoundtripCustoms KmipCodec.
 From KVGen Require Import KmipSchema.
 Import ListNotations.
 Open Scope Z_scope.
@@ -13,9 +13,9 @@ Section Bin.
 
   (** encode, lay out in binary TTLV, read with the binary reader, decode: the value comes back,
       every byte is consumed, the version state ends where the encoder's did *)
-  Theorem bin_roundtrip fe st t tag v items st' sc :
+  Theorem bin_roundtrip fe fc st t tag v items st' sc :
     enc_ty S fe st t tag v = Ok (items, st') ->
-    conf_ty S fe st t tag v = Some sc ->
+    conf_ty S OPS ATTRS OBJS fc st t tag v = Some sc ->
     forallb item_ok items = true -> forallb item_small items = true ->
     lookahead t = false ->
     exists c, bin_cursor (wire_enc_list items) = Ok c /\
@@ -26,7 +26,7 @@ Section Bin.
     destruct (bin_faithful items Hok Hsm) as (forest & Hcur & Hf).
     exists (forest, false). split; [exact Hcur|]. intros fd Hfd.
     destruct (rt_all S OPS ATTRS OBJS bin_fmt fe) as (Pt & _ & _).
-    destruct (Pt _ _ _ _ _ _ _ He Hc) as (_ & _ & _ & _ & Hdec).
+    destruct (Pt _ _ _ _ _ _ _ _ He Hc) as (_ & _ & _ & _ & Hdec).
     specialize (Hdec forest [] fd Hf). rewrite app_nil_r in Hdec. apply Hdec; [rewrite Hla; discriminate | exact Hfd].
   Qed.
 End Bin.
